@@ -177,3 +177,17 @@ chk("C15", "static analysis: linear-use analysis of macro expansions in a witnes
     "ArrayBuilder's Drop covers [0,inited). Exactly-once then follows from the range invariant by induction over operations.",
     "Trusted: rustc MIR/expansion; rustc's exhaustive-pattern check for the field set; the by-value map protocol is C11's BYVAL "
     "rule. Unwinding paths (cleanup blocks) are not analysed.")
+chk("C01", "static analysis: unsafe-operation inventory from MIR against an obligation table, path-condition proofs, provenance analysis, re-run of the owning rule sets",
+    "Every operation that needs `unsafe` (unsafe-fn call, raw deref, union read, transmute) in konst_kernel and konst "
+    "(configs FULL and DEBUG, +MIN in thorough) and in the witness expansions of the 8 macros whose transcribers contain "
+    "`unsafe` is enumerated from MIR and must match an entry of the obligation table; an unlisted operation fails the check. "
+    "Discharge: from_raw_parts/offset in the 9 getters by the path's own conditions (k=0 & n<=len, or n=len-k & k<=len, "
+    "disjoint halves for split_at_mut); every bytes->str conversion by provenance (sub-range of the input's bytes) plus its "
+    "justification (boundary test on the very index cut / whole-pattern cutter on the normalised pattern / ASCII trimmers / "
+    "encoder output); the other schemas by re-running the owning rules here (chunk and array casts, from_u32 scalar set, "
+    "UTF-8 encoder/decoder bits, CStr scan/walk, ArrayBuilder/ArrayConsumer protocols and drop ranges, INIT typestate and "
+    "linear-use of the macro expansions). Sub-range clause: D1 provenance of all 139 safe pub fns returning slices/strs must "
+    "root in a parameter or the static empty slice.",
+    "Trusted: rustc MIR; documented safety contracts of the std callees; repr(transparent)/MaybeUninit layout facts; the &CStr "
+    "invariant; the two deprecated pointer->Option<NonNull> niche transmutes are allow-listed with the reason. Cleanup "
+    "(unwind) paths are not analysed. That the byte matchers cut only after whole matches is C04/C05's behaviour.")
